@@ -1069,6 +1069,10 @@ end
 
 /-! ### where the identity rewrites are type-unsafe (guard of the known finding) -/
 
+def isIdent : Expr → Bool
+  | .ident _ => true
+  | _ => false
+
 def Res.isInt : Res → Bool
   | .val (.int _) => true
   | _ => false
@@ -1083,20 +1087,23 @@ def unsafeAt (fo : FOps) (env : Env) (op : BinOp) (l r : Expr) : Bool :=
     | none => false
 
 mutual
-/-- some identity rewrite performed by `fold` on `e` is applied to a non-integer operand -/
+/-- some identity rewrite performed by `fold` on `e` is applied to a non-integer operand, or turns
+the target of a call / the object of a member access (which are inspected syntactically) into a
+bare identifier -/
 def unsafeIdent (fo : FOps) (env : Env) : Expr → Bool
   | .bin op l r =>
     unsafeIdent fo env l || unsafeIdent fo env r ||
       unsafeAt fo env op (fold fo true l) (fold fo true r)
   | .un _ e => unsafeIdent fo env e
-  | .call f args => unsafeIdent fo env f || unsafeIdentAll fo env args
+  | .call f args =>
+    unsafeIdent fo env f || unsafeIdentAll fo env args || (!isIdent f && isIdent (fold fo true f))
   | .arr xs => unsafeIdentAll fo env xs
   | .map _ vs => unsafeIdentAll fo env vs
   | .lambda _ b => unsafeIdent fo env b
   | .ite c t e => unsafeIdent fo env c || unsafeIdent fo env t || unsafeIdent fo env e
   | .coalesce e d => unsafeIdent fo env e || unsafeIdent fo env d
   | .range s e _ => unsafeIdent fo env s || unsafeIdent fo env e
-  | .member e _ => unsafeIdent fo env e
+  | .member e _ => unsafeIdent fo env e || (!isIdent e && isIdent (fold fo true e))
   | .optMember e _ => unsafeIdent fo env e
   | .index e i => unsafeIdent fo env e || unsafeIdent fo env i
   | .slice e s en => unsafeIdent fo env e || unsafeIdentOpt fo env s || unsafeIdentOpt fo env en
